@@ -969,7 +969,7 @@ fn main() {
                 CUR_TEXT.with(|t| *t.borrow_mut() = src.text.clone());
                 let what = format!("{}:{} item `{}`", unit_path, spec.line, spec.selector.join(" "));
                 let loc = locate(src, &spec.selector);
-                let (emitted, edits_log, splices) = emit_item(src, &loc, &spec, &subst, &vecplaces, &what);
+                let (emitted, edits_log, splices, copied) = emit_item(src, &loc, &spec, &subst, &vecplaces, &what);
                 let start = body.line;
                 if let Some(a) = &spec.attr {
                     body.push(a.trim_end());
@@ -978,7 +978,7 @@ fn main() {
                 let item_start = body.line;
                 body.push(&emitted);
                 body.push("\n");
-                bytes_copied += loc.whole.hi - loc.whole.lo;
+                bytes_copied += copied;
                 if vac {
                     if let Some(vtxt) = vac_fn(src, &loc, &spec, &subst) {
                         let v0 = body.line;
@@ -1003,7 +1003,7 @@ fn main() {
                     "src_lines": [src_line0, src_line1],
                     "src_bytes": [loc.whole.lo, loc.whole.hi],
                     "gen_lines": [start, body.line - 1],
-                    "external_body": spec.external_body,
+                    "external_body": spec.external_body || spec.attr.as_ref().map(|a| a.contains("external_body")).unwrap_or(false),
                     "sigonly": spec.sigonly,
                     "fragment": spec.frag.is_some(),
                     "edits": edits_log,
@@ -1140,7 +1140,7 @@ fn emit_item(
     subst: &[(String, String)],
     vecplaces: &[String],
     what: &str,
-) -> (String, Vec<Value>, Vec<(String, usize, usize)>) {
+) -> (String, Vec<Value>, Vec<(String, usize, usize)>, usize) {
     let text = &src.text;
     let mut edits: Vec<Edit> = Vec::new();
     let mut seq = 0usize;
@@ -1457,7 +1457,7 @@ fn emit_item(
         res.push_str(l.trim_end());
         res.push('\n');
     }
-    (res, log, splices)
+    (res, log, splices, region.hi - region.lo)
 }
 
 fn struct_edits(src: &Src, loc: &Located, spec: &ItemSpec, add: &mut dyn FnMut(usize, usize, String, &str), what: &str) {
